@@ -10,7 +10,7 @@ LEVEL = "model_checking"
 RULE = ("records = real Grid.diff/interp/min/max calls on random simple grids (1-3 axes, any position subset with "
         "center, n 2..6, 0-2 extra dims in any order, to omitted/scalar/mapping, rule and fill per call or grid "
         "default, small integer data); non-trivial = distinct (op, per-axis (from,to,rule in force), ndim) classes"
-        ' Inputs also vary in spelling and state: numpy-scalar fill values, memory layouts (F-order, strided, negative stride, read-only), decreasing / irregular / unsorted coordinate labels, earlier calls with other per-call rules on the same Grid.')
+        ' Inputs also vary in spelling and state: numpy-scalar fill values, memory layouts (F-order, strided, negative stride, read-only), decreasing / irregular / unsorted coordinate labels, earlier calls with other per-call rules on the same Grid, Grid-level mappings naming only some axes, an extra dimension of length 0.')
 
 OPS = ["diff", "interp", "min", "max"]
 
@@ -35,7 +35,7 @@ def default_shift(ctor, ax, frm):
     return fallback([p for p, _ in ax["pos"]], frm)
 
 
-def gen_case(rng, cid, ops=OPS, nmax=5, maxelems=120, ev="Stencil"):
+def gen_case(rng, cid, ops=OPS, nmax=5, maxelems=120, ev="Stencil", allow_empty=False):
     while True:
         dimctr = [0]
         naxes = rng.choice([1, 1, 1, 2, 2, 3])
@@ -47,6 +47,14 @@ def gen_case(rng, cid, ops=OPS, nmax=5, maxelems=120, ev="Stencil"):
             extra.append([f"d{dimctr[0]}", rng.randint(1, 3)])
         ctor = gen.rand_ctor(rng, axnames)
         ctor["default_shifts"] = gen.rand_default_shifts(rng, axes)
+        if ev == "Stencil" and rng.random() < 0.2:
+            # Grid-level mappings that name only some axes: the others keep the periodic flag's rule / the fill value 0
+            for k_ in ("boundary", "fill_value"):
+                if ctor[k_]["k"] == "m" and len(ctor[k_]["v"]) > 1:
+                    ctor[k_] = M(rng.sample(list(ctor[k_]["v"]), rng.randint(1, len(ctor[k_]["v"]) - 1)))
+        empty_extra = allow_empty and bool(extra) and rng.random() < 0.06
+        if empty_extra:
+            extra[rng.randrange(len(extra))][1] = 0      # a selection that matched nothing: the result is empty too, on the new dimension
         nop = rng.randint(1, naxes)
         opaxes = rng.sample(axes, nop)
         mode = rng.choice(["none", "s", "m", "m"])
@@ -80,7 +88,7 @@ def gen_case(rng, cid, ops=OPS, nmax=5, maxelems=120, ev="Stencil"):
         size = 1
         for _, s in dims_shape:
             size *= s
-        if size > maxelems or size == 0:
+        if size > maxelems or (size == 0 and not empty_extra):
             continue
         to = NONE if mode == "none" else S(scalar_to) if mode == "s" else M(to_pairs)
         if mode == "m":
@@ -176,7 +184,7 @@ def run(ctx):
     ctx.mc("MC_Stencil", "MC_Stencil_thorough.cfg" if thorough else "MC_Stencil_quick.cfg", coverage=True)
     rng = random.Random(ctx.seed * 7919 + 1)
     n = 40000 if thorough else 1500
-    cases = [gen_case(rng, k + 1, nmax=6 if thorough else 5) for k in range(n)]
+    cases = [gen_case(rng, k + 1, nmax=6 if thorough else 5, allow_empty=True) for k in range(n)]
     if thorough:
         cases += table_cases(len(cases) + 1)
     else:
